@@ -45,9 +45,11 @@ def propagate_fft(wavefront, pixelscale, shape=None, oversample=2,
                                             wavefront.wavelength, 
                                             oversample)
     
-    # TODO: verify field_shape is smaller than fft_shape
-    # TODO: what if field is bigger than fft_shape?
-    # field_shape = wavefront.shape
+    # An input plane with more samples than the FFT grid (an output pixel coarser
+    # than wavelength * F-number) is folded onto the grid: in a transform of period
+    # K, samples K apart contribute with the same phase, so the transform of the
+    # folded plane is the transform of the whole plane. (Padding would crop it.)
+    fold = wavefront.shape != () and np.any(np.asarray(wavefront.shape) > fft_shape)
 
     if shape is None:
         shape_out = tuple(fft_shape)
@@ -75,12 +77,18 @@ def propagate_fft(wavefront, pixelscale, shape=None, oversample=2,
         # zero out the portion of scratch that we're going to use for the
         # propagation and then insert the Wavefront field(s) into scratch
         scratch[0:fft_shape[0], 0:fft_shape[1]] = 0
-        for field in wavefront.data:
-            scratch[0:fft_shape[0], 0:fft_shape[1]] = lentil.field.insert(field, scratch[0:fft_shape[0], 0:fft_shape[1]])
+        if fold:
+            scratch[0:fft_shape[0], 0:fft_shape[1]] = _fold(wavefront.field, fft_shape)
+        else:
+            for field in wavefront.data:
+                scratch[0:fft_shape[0], 0:fft_shape[1]] = lentil.field.insert(field, scratch[0:fft_shape[0], 0:fft_shape[1]])
         field =_fft2(scratch[0:fft_shape[0], 0:fft_shape[1]])
 
     else:
-        field = lentil.pad(wavefront.field, fft_shape)
+        if fold:
+            field = _fold(wavefront.field, fft_shape)
+        else:
+            field = lentil.pad(wavefront.field, fft_shape)
         field = _fft2(field)
     
     # keep only the requested window: the Wavefront's shape is shape_out, and
@@ -88,6 +96,17 @@ def propagate_fft(wavefront, pixelscale, shape=None, oversample=2,
     field = lentil.pad(field, shape_out)
     out.data.append(Field(data=field, pixelscale=pixelscale/oversample))
 
+    return out
+
+
+def _fold(a, shape):
+    # Add the samples of a (origin at index n//2 of each axis) that lie a multiple
+    # of shape[k] apart onto one grid of that shape (origin at shape[k]//2)
+    a = np.asarray(a)
+    r = (np.arange(a.shape[0]) - a.shape[0]//2 + shape[0]//2) % shape[0]
+    c = (np.arange(a.shape[1]) - a.shape[1]//2 + shape[1]//2) % shape[1]
+    out = np.zeros(tuple(shape), dtype=a.dtype)
+    np.add.at(out, (r[:, np.newaxis], c[np.newaxis, :]), a)
     return out
 
 
